@@ -1349,6 +1349,62 @@ def inline_known(fn_node, callee_nodes):
 
 
 
+def inline_super_calls(trees):
+    """`super().m(args)` (m not a special method) inside a method of class C  ->  the body of the method m that C inherits, with the
+    caller's self.  A method that merely delegates to the implementation it would have inherited anyway, or that wraps it, then reads
+    like the inherited code.  trees: rel -> Module tree (not modified) -> {rel: new tree} for the modules that changed"""
+    def has_super(t):
+        return any(isinstance(n, ast.Call) and isinstance(n.func, ast.Attribute) and isinstance(n.func.value, ast.Call) and
+                   isinstance(n.func.value.func, ast.Name) and n.func.value.func.id == 'super' and
+                   not (n.func.attr.startswith('__') and n.func.attr.endswith('__')) for n in ast.walk(t))
+    hit = [rel for rel, t in trees.items() if has_super(t)]
+    if not hit:
+        return {}
+    classes = class_table(trees)
+    nodes = {}
+    for rel, t in trees.items():
+        for n in ast.walk(t):
+            if isinstance(n, ast.ClassDef):
+                nodes.setdefault(n.name, []).append(n)
+    out = {}
+    for rel in hit:
+        t = _strip_parents(trees[rel])
+        changed = False
+        for c in [n for n in ast.walk(t) if isinstance(n, ast.ClassDef)]:
+            for f in [m for m in c.body if isinstance(m, ast.FunctionDef)]:
+                calls = [n for n in ast.walk(f) if isinstance(n, ast.Call) and isinstance(n.func, ast.Attribute) and isinstance(n.func.value, ast.Call) and
+                         isinstance(n.func.value.func, ast.Name) and n.func.value.func.id == 'super' and
+                         not (n.func.attr.startswith('__') and n.func.attr.endswith('__'))]
+                callees = {}
+                for call in calls:
+                    m = call.func.attr
+                    owner = None
+                    for k in _mro_names(classes, c.name)[1:]:
+                        if len(nodes.get(k, [])) == 1 and any(isinstance(x, ast.FunctionDef) and x.name == m for x in nodes[k][0].body):
+                            owner = k
+                            break
+                    if owner is None:
+                        continue
+                    base = [x for x in nodes[owner][0].body if isinstance(x, ast.FunctionDef) and x.name == m][0]
+                    alias = 'inherited_%s_' % m
+                    node = _strip_parents(base)
+                    node.name = alias
+                    callees[alias] = _Callee('-', alias, node, nodes[owner][0])
+                    call.func = ast.copy_location(ast.Attribute(value=ast.Name(id='self', ctx=ast.Load()), attr=alias, ctx=ast.Load()), call.func)
+                if callees:
+                    rep = []
+                    inl = Inliner(callees, rep)
+                    inl.cur_class = None
+                    inl.inline_function(f)
+                    changed = True
+        if changed:
+            ast.fix_missing_locations(t)
+            renumber_inlined(t)
+            reparent(t)
+            out[rel] = t
+    return out
+
+
 # ------------------------------------------------------------------------ explicit lock()/try/finally unlock()  ->  with
 
 def _contextual_lock_classes(trees):
